@@ -46,7 +46,7 @@ def bounds(tier):
         return dict(
             types=dict(Shapes=[[], [2], [3], [2, 3], [3, 2], [2, 2], [2, 2, 2], [2, 1, 3], [3, 2, 2]], SecShapes=[[], [2], [2, 3]],
                        ModShapes=[[], [2], [3], [2, 3], [2, 2, 2]],
-                       ArrStarts=list(range(1, 17)), Steps=[0, 1]),
+                       ArrStarts=[1, 3, 5, 7, 9, 11, 13, 15, 16], Steps=[0, 1]),
             select=dict(EnvSizes=[1, 2, 3, 7],
                         QuerySet=[[], ["*"], ["grp", "*"], ["grp", "b"], ["grp", "sub", "*"], ["grp", "sub", "d"],
                                   ["zz", "*"], ["a"], ["grp"], ["Size2", "*"]],
@@ -110,7 +110,8 @@ NEXT Next
 INVARIANT Lemmas
 CHECK_DEADLOCK FALSE
 """
-    r = C.run_tlc(wd, mod, cfg, workers=workers, copy_specs=False)
+    r = C.run_tlc(wd, mod, cfg, workers=workers, copy_specs=False,
+                  env={"JAVA_TOOL_OPTIONS": "-Xmx3g"})          # four small models run side by side
     if r.violated:
         raise C.MachineryError(f"TLC: contract lemma violated in Export.tla ({family}): {r.cex[:1500]}")
     return r
